@@ -12,9 +12,87 @@ import (
 var multiLineFeedRegex = regexp.MustCompile(`\n{3,}`)
 var replace = "\n\n"
 
-// Replace over three line-feed characters to two characters
+// Replace over three line-feed characters to two characters.
+// Line feeds inside of string literals and block comments are a part of their content so they are kept as they are.
 func trimMultipleLineFeeds(lines string) string {
-	return multiLineFeedRegex.ReplaceAllString(lines, replace)
+	var out strings.Builder
+	start := 0 // beginning of the text that is not yet written to out
+
+	flush := func(end int) {
+		out.WriteString(multiLineFeedRegex.ReplaceAllString(lines[start:end], replace))
+	}
+	verbatim := func(from, to int) {
+		flush(from)
+		out.WriteString(lines[from:to])
+		start = to
+	}
+
+	for i := 0; i < len(lines); {
+		switch {
+		case lines[i] == '"':
+			// double quoted string
+			end := i + 1
+			for end < len(lines) && lines[end] != '"' && lines[end] != '\n' {
+				end++
+			}
+			if end < len(lines) {
+				end++
+			}
+			verbatim(i, end)
+			i = end
+		case lines[i] == '{' && longStringOpen(lines[i+1:]) >= 0:
+			// long string like {"..."} or {DELIMITER"..."DELIMITER}
+			n := longStringOpen(lines[i+1:])
+			closing := `"` + lines[i+1:i+1+n] + "}"
+			end := strings.Index(lines[i+2+n:], closing)
+			if end < 0 {
+				end = len(lines)
+			} else {
+				end += i + 2 + n + len(closing)
+			}
+			verbatim(i, end)
+			i = end
+		case strings.HasPrefix(lines[i:], "/*"):
+			end := strings.Index(lines[i+2:], "*/")
+			if end < 0 {
+				end = len(lines)
+			} else {
+				end += i + 4
+			}
+			verbatim(i, end)
+			i = end
+		case lines[i] == '#' || strings.HasPrefix(lines[i:], "//"):
+			// line comment ends at the line feed
+			end := strings.IndexByte(lines[i:], '\n')
+			if end < 0 {
+				end = len(lines)
+			} else {
+				end += i
+			}
+			verbatim(i, end)
+			i = end
+		default:
+			i++
+		}
+	}
+	flush(len(lines))
+	return out.String()
+}
+
+// longStringOpen returns the length of the delimiter when s, the text following "{", opens a long string, -1 otherwise
+func longStringOpen(s string) int {
+	for i := 0; i < len(s); i++ {
+		c := s[i]
+		switch {
+		case c == '"':
+			return i
+		case c >= 'a' && c <= 'z', c >= 'A' && c <= 'Z', c >= '0' && c <= '9', c == '_':
+			continue
+		default:
+			return -1
+		}
+	}
+	return -1
 }
 
 // Calculate indent strings from configuration
